@@ -27,10 +27,22 @@ MODULE = "checks.bounded_C03"
 WORKERS = 16
 
 TIERS = {
-    # n_enum, n_random trees per grammar; wrappers per template; watchdog seconds
-    "quick": dict(n_enum=30, n_random=4, wrappers=1, watchdog=20.0),
-    "thorough": dict(n_enum=150, n_random=30, wrappers=3, watchdog=60.0),
+    # n_enum, n_random trees per grammar; wrappers per template; watchdog (CPU seconds per call);
+    # wide_numeric: number of pool trees (fixed stride) used for numeric-quantifier variants on the
+    # `wide` grammar, where quantifier elimination builds formulas quadratic in the 30/40 children
+    "quick": dict(n_enum=22, n_random=3, wrappers=1, watchdog=20.0, wide_numeric=5),
+    "thorough": dict(n_enum=150, n_random=30, wrappers=3, watchdog=90.0, wide_numeric=16),
 }
+
+
+def _tree_indices(task: Dict[str, Any], pool_size: int) -> List[int]:
+    """Fixed subset of the pool a task evaluates (all trees unless the task
+    carries ``max_trees``)."""
+    limit = task.get("max_trees")
+    if not limit or pool_size <= limit:
+        return list(range(pool_size))
+    step = pool_size / limit
+    return sorted({int(i * step) for i in range(limit)} | {pool_size - 1})
 
 
 # --------------------------------------------------------------------------- #
@@ -60,7 +72,8 @@ def _build_tasks(tier: str, seed: int) -> List[Dict[str, Any]]:
                 tasks.append(dict(grammar=name, tid=tpl.tid, cat=tpl.cat, variant="num-" + vid, text=text,
                                   dc=reason, raw=False, oracle_text=None,
                                   n_enum=cfg["n_enum"], n_random=cfg["n_random"], seed=seed,
-                                  watchdog=cfg["watchdog"]))
+                                  watchdog=cfg["watchdog"],
+                                  max_trees=cfg["wide_numeric"] if name == "wide" else None))
     return tasks
 
 
@@ -150,7 +163,8 @@ def _worker(task: Dict[str, Any]) -> Dict[str, Any]:
             grammar, task["text"], task["raw"], task["oracle_text"], task["watchdog"])
         cases = []
         if parse_error is None:
-            for idx, struct in enumerate(pool):
+            for idx in _tree_indices(task, len(pool)):
+                struct = pool[idx]
                 res = _evaluate_case(grammar, task["text"], formula, oracle_formula, features, solver,
                                      solver_error, struct, task["watchdog"])
                 res["tree"] = idx
@@ -183,7 +197,13 @@ def _kind(observed: str, expected: Optional[str]) -> str:
 
 def judge(task: Dict[str, Any], case: Dict[str, Any], tree_cls: str) -> Tuple[str, List[Tuple[str, str]]]:
     """Returns (status, [(signature, detail)]).  status: ok | trivial |
-    inconclusive | violation."""
+    inconclusive | violation.
+
+    Signature = function : strategy : input class : kind.  The input class is
+    the template category, except that on trees with a node of >= 29 children
+    every template with a tree quantifier evaluated by ``evaluate_legacy`` is
+    put into the ONE class ``tree-quantifier-on-fanout>=29`` (the quantifier
+    domain comes from the subtree trie there, whatever the body is)."""
     ev, ck, oracle = case["ev"], case["ck"], case["oracle"]
     numeric = task["variant"] != "plain"
     strategy = "qe" if numeric else "legacy"
@@ -200,7 +220,10 @@ def judge(task: Dict[str, Any], case: Dict[str, Any], tree_cls: str) -> Tuple[st
         status = "trivial"  # documentation admits both verdicts
     else:
         expected = oracle["verdicts"][0]
-    prefix = f"{strategy}:{task['cat']}:{tree_cls}"
+    cat = task["cat"]
+    if tree_cls == "fanout>=29" and strategy == "legacy" and task.get("tree_quantifier", True):
+        cat = "tree-quantifier-on-fanout>=29"
+    prefix = f"{strategy}:{cat}"
     # never UNKNOWN, never raises -- independent of the oracle verdict
     if ev not in ("T", "F"):
         problems.append((f"evaluate:{prefix}:{_kind(ev, expected)}", f"evaluate -> {ev}"))
@@ -242,6 +265,9 @@ def run(rep, tier: str, seed: int) -> None:
 
     tasks = _build_tasks(tier, seed)
     t0 = time.time()
+    import isla.evaluator  # noqa: F401  (imported before the fork so that the workers share it)
+    import isla.solver  # noqa: F401
+    import bounded.refeval  # noqa: F401
     with multiprocessing.get_context("fork").Pool(WORKERS) as pool:
         results = list(pool.imap_unordered(_worker, tasks, chunksize=1))
     order = {(t["grammar"], t["tid"], t["variant"]): i for i, t in enumerate(tasks)}
@@ -268,6 +294,7 @@ def run(rep, tier: str, seed: int) -> None:
             rep.checker_error(f"template does not parse: {name}/{task['tid']}/{task['variant']}: {task['text']!r}: "
                               f"{res['parse_error']}")
             continue
+        task["tree_quantifier"] = bool((res["features"] or {}).get("tree_quantifier", True))
         for case in res["cases"]:
             struct = pools[name][case["tree"]]
             tree_cls = H.tree_class(struct)
@@ -382,7 +409,8 @@ def replay(path: str) -> int:
         print(f"parse error: {parse_error}")
         return 1
     res = _evaluate_case(grammar, case["text"], formula, oracle_formula, features, solver, solver_error, struct, 60.0)
-    task = dict(variant=case["variant"], cat=case["cat"], dc=case["dc"])
+    task = dict(variant=case["variant"], cat=case["cat"], dc=case["dc"],
+                tree_quantifier=bool((features or {}).get("tree_quantifier", True)))
     status, problems = judge(task, res, H.tree_class(struct))
     print(f"evaluate -> {res['ev']}   ISLaSolver.check -> {res['ck']}   oracle -> {res['oracle']}   "
           f"strategy={res['strategy']}")
